@@ -30,24 +30,30 @@ theorem C11_text (E : Ext) (p s : Nat) (hp : 1 ≤ p ∧ p ≤ 65) (hs : s ≤ 3
     (lc f32 f64 : Nat → Bytes) :
     cellBytes E (W.cell 246 (p * 256 + s) (.dec neg i f) ++ rest) 0 246 (p * 256 + s) u
       = .ok (W.text (p * 256 + s) lc f32 f64 (.dec neg i f), (W.cell 246 (p * 256 + s) (.dec neg i f)).length) := by
-  sorry
+  have _ := hz   -- not needed: the decoder round-trips "-0" too (MySQL just never stores it)
+  rw [C11.cellBytes_246, C11.text_dec]
+  exact C11.decimalBytes_enc p s hp hs neg i f wf.ilen wf.flen wf.idig wf.fdig rest
 
 /-- zero never decodes to an empty (NULL-looking) value; in fact no value does -/
 theorem C11_nonempty (md : Nat) (neg : Bool) (i f : List Nat) (lc f32 f64 : Nat → Bytes) :
     W.text md lc f32 f64 (.dec neg i f) ≠ [] := by
-  sorry
+  rw [C11.text_dec]
+  intro h
+  exact C11.intText_ne_nil i (List.append_eq_nil_iff.mp (List.append_eq_nil_iff.mp h).1).2
 
 /-- the canonical text really is the number: parsing the integer part back gives the integer value, and the
     fraction part is exactly the s digits -/
 theorem C11_value (i : List Nat) (hi : ∀ d ∈ i, d < 10) :
     decValue (match W.stripLeadingZeros i with | [] => [digit 0] | ds => W.digitsText ds) = some (W.digitsVal i) := by
-  sorry
+  exact C11.intText_value i hi
 
 /-- the length rule agrees: cellLength returns the writer's length -/
 theorem C11_length (p s : Nat) (hp : 1 ≤ p ∧ p ≤ 65) (hs : s ≤ 30 ∧ s ≤ p) (neg : Bool) (i f : List Nat)
     (wf : WF p s i f) (data : Bytes) (pos : Nat) :
     cellLength data pos 246 (p * 256 + s) = .ok (W.cell 246 (p * 256 + s) (.dec neg i f)).length := by
-  sorry
+  have _ := hp   -- not needed for the length rule
+  rw [C11.cellLength_246]
+  exact C11.decimalLen_enc p s hs neg i f wf.ilen wf.flen
 
 /-! non-vacuity -/
 example : WF 5 2 [0, 1, 2] [3, 4] := ⟨rfl, rfl, by decide, by decide⟩
